@@ -1,6 +1,27 @@
 """What each registered check claims (source of MANIFEST.json; see tools/gen_manifest.py)."""
 
 CLAIMS = {
+    "C09": {
+        "text": "Partial correctness (safety) of the FX market: try_new's paths are flattened — empty / under- / over-specified / inconsistent-settlement "
+                "inputs each give Err and create_fx_array is reached only when all are false (settlement guard checked as the exact forall-shape); every "
+                "write to the rate matrix is chain-typed (quote at [idx(p0),idx(p1)], reciprocal at the mirror, M[p,n]*M[n,q] at [p,q] with one inner "
+                "index) and paired with edge writes; crosses only where the edge entry is 0; Ok(true) only under edges.sum()==n*n, exhausted "
+                "candidates give Err; lookup reads [idx(lhs), idx(rhs)] in all variants. By induction every entry of an Ok market is the product of "
+                "quotes along a path with inverses on reversed edges, quoted pairs returned as quoted.",
+        "design_ref": "DESIGN.md §4 C09",
+        "note": "Not decided (declared): that every valid tree is accepted (liveness of the recursive fill-in); order/base independence as executed; rounding.",
+        "technique": "path flattening of symbolic summaries; array-comprehension semantics of indexed writes (chain typing); quantifier shapes",
+    },
+    "C10": {
+        "text": "Naming protocol checked on both sides of the FFI (Rust format template + Display(FXPair) vs the Python f-string, parsed with ast); quote i "
+                "is lifted with the name formatted from pair i; refusal is atomic (MIR: no Err-producing block reachable from a block writing through "
+                "self in update/set_ad_order); update refuses unknown pairs (forall/exists shape), replaces the slot found by pair equality, rebuilds on "
+                "currencies[0] from the full list and replaces all three fields; set_ad_order's 9 cases: identity / rebuild at the target order / "
+                "value-preserving element projection into n x n.",
+        "design_ref": "DESIGN.md §4 C10",
+        "note": "Not decided: numeric sensitivities on concrete markets (C01/C02 along C09's chain typing). Trusted: lib/cel.py, MIR place syntax.",
+        "technique": "cross-language constant agreement; MIR reachability (no write before last fallible point); symbolic case evaluation with explore()",
+    },
     "C08": {
         "text": "Claimed for the table clauses only: get_imm's seven arms evaluated per weekday of the 1st (day = 15 + ((2 - wd) mod 7)); get_roll's five "
                 "arms (Int, EoM -> 31 capped, SoM -> 1, IMM, Unspecified -> Err); add_months rewrites Unspecified to the start date's own day and feeds "
